@@ -24,6 +24,7 @@ import subprocess
 import sys
 import time
 
+from harness.corr import c17_gen
 from harness.lib import common
 from harness.translate import itersites
 
@@ -177,10 +178,22 @@ def set_digest(s):
 
 
 # ------------------------------------------------------------- hash-seed sweep
-def sweep(chk, sets, seeds, label):
+def first_difference(a, b):
+    """First differing line of two texts (for the violation record)."""
+    if a is None or b is None or a == b:
+        return None
+    la, lb = a.split("\n"), b.split("\n")
+    for i, (x, y) in enumerate(zip(la, lb)):
+        if x != y:
+            return {"line": i + 1, "first": x[:300], "second": y[:300]}
+    return {"line": min(len(la), len(lb)) + 1, "first": "<%d lines>" % len(la), "second": "<%d lines>" % len(lb)}
+
+
+def sweep(chk, sets, seeds, label, full=False):
     """Same batch, fresh interpreter per seed; every observable of every set must be
-    byte-identical across seeds.  Returns number of violations."""
-    job = {"sets": [{"name": s["name"], "files": s["files"], "main": s["main"]} for s in sets]}
+    byte-identical across seeds.  Returns number of violations.  `full`: the workers return
+    the texts (not only their hashes) so that the record can show the first differing line."""
+    job = {"sets": [{"name": s["name"], "files": s["files"], "main": s["main"], "full": full} for s in sets]}
     results = pool_map(lambda sd: run_worker(sd, job), seeds)
     before = len(chk.violations)
     kinds = chk.extra.setdefault("outcome_kinds", {})
@@ -190,6 +203,13 @@ def sweep(chk, sets, seeds, label):
         r0 = recs[0]
         kind = "crash" if r0["exc"] else ("rejected" if r0["err_sha"] != EMPTY_SHA else "accepted")
         kinds[kind] = kinds.get(kind, 0) + 1
+        if s.get("feature"):
+            st = chk.extra.setdefault("rich_sets", {}).setdefault(s["feature"], {
+                "sets": 0, "accepted": 0, "rejected": 0, "crash": 0, "max_diagnostic_lines": 0, "max_modules": 0})
+            st["sets"] += 1
+            st[kind] += 1
+            st["max_diagnostic_lines"] = max(st["max_diagnostic_lines"], len((r0.get("errors") or "").split("\n")) - 1)
+            st["max_modules"] = max(st["max_modules"], len(r0["mods"]))
         if kind == "rejected":
             first = (r0.get("errors") or "").split("\n")[0]
             m = re.search(r"(error|warning|note): (.{0,40})", first)
@@ -210,6 +230,12 @@ def sweep(chk, sets, seeds, label):
                           "observable": ob, "by_seed": by_seed, "seeds": list(seeds),
                           "errors_by_seed": {str(sd): r.get("errors") for sd, r in zip(seeds, recs)},
                           "expected": "byte-identical across PYTHONHASHSEED values", "where": label}
+                txt = {"ir_sha": "ir", "header_sha": "header", "err_sha": "errors", "err_src_sha": "errors_src"}.get(ob)
+                if full and txt:
+                    other = [r for r in recs if r[ob] != r0[ob]][0]
+                    detail["first_difference"] = first_difference(r0.get(txt), other.get(txt))
+                if s.get("feature"):
+                    detail["generator_feature"] = {"feature": s["feature"], "size": s.get("size")}
                 chk.violation("input", detail, key="hashseed:" + s["name"])
                 break
         if i < 3:
@@ -645,17 +671,159 @@ def all_sets(tier, r):
     gen = gen_sets(r, 8 if tier == "quick" else 40, 16 if tier == "quick" else 120, td_files)
     if tier == "quick":
         td = r.sample(td, min(len(td), 14))      # the whole directory in the thorough tier
+    # large-collection sets, every feature of harness/corr/c17_gen.py
+    gen += c17_gen.rich_sets(r, None, rounds=1 if tier == "quick" else 3,
+                             size=(6, 16) if tier == "quick" else (8, 24))
     return corpus, td, gen
 
 
+def stale_parser_run(seeds):
+    """The compiler with a STALE cached parser (grammar of module_ir.py and the checked-in
+    tables disagree): a scratch copy of $VERIF_REPO/compiler whose module_ir.py has a few more
+    productions (unreachable non-terminals) and whose cached tables list a few productions
+    module_ir.py does not have — nothing regenerated.  embossc then warns, lists the new and the
+    missing productions, builds the parser on the fly (lr1 over sets) and compiles.  rc, stdout,
+    stderr and header must not depend on PYTHONHASHSEED.  Returns (info, violation detail or None)."""
+    import shutil
+    root = os.path.join(common.scratch(), "stale")
+    if os.path.exists(root):
+        shutil.rmtree(root)
+    shutil.copytree(os.path.join(common.REPO, "compiler"), os.path.join(root, "compiler"),
+                    ignore=shutil.ignore_patterns("*_test.py", "__pycache__", "testdata"))
+    shutil.copy(os.path.join(common.REPO, "embossc"), os.path.join(root, "embossc"))
+    new_words = ["orchid", "basalt", "quiver", "tundra", "marble"]
+    gone_words = ["falcon", "cobalt", "meadow", "spruce"]
+    mp = os.path.join(root, "compiler", "front_end", "module_ir.py")
+    src = open(mp).read()
+    marker = "\n_finalize_grammar()\n"
+    cp = os.path.join(root, "compiler", "front_end", "generated", "cached_parser.py")
+    csrc = open(cp).read()
+    if marker not in src or "  productions=prods," not in csrc:
+        return "skipped: module_ir.py / cached_parser.py do not have the expected shape", None
+    add = "".join('\n@_handles(\'verif-%s -> "$verif_%s" verif-%s-tail*\')\ndef _verif_%s(a, b):\n    return a\n'
+                  '\n@_handles(\'verif-%s-tail -> "$verif_%s_tail"\')\ndef _verif_%s_tail(a):\n    return a\n' % ((w,) * 7)
+                  for w in new_words)
+    with open(mp, "w") as f:
+        f.write(src.replace(marker, "\n" + add + marker, 1))
+    gone = ", ".join('P("verif-%s", (\'"$gone_%s"\',))' % (w, w) for w in gone_words)
+    with open(cp, "w") as f:
+        f.write(csrc.replace("  productions=prods,", "  productions=prods | {%s}," % gone, 1))
+    work = os.path.join(root, "work")
+    files = {"t.emb": '[$default byte_order: "LittleEndian"]\nenum Kind:\n  AA = 1\n  BB = 2\nstruct Tt:\n'
+                      '  0 [+1]  bits:\n    0 [+4]  UInt  lo\n    4 [+4]  UInt  hi\n  1 [+1]  Kind  kind\n'
+                      '  if kind == Kind.AA:\n    2 [+2]  UInt  extra\n  let total = lo + hi\n'}
+    write_files(work, files)
+
+    def go(sd):
+        env = env_for(sd)
+        env["PYTHONPATH"] = root
+        out = os.path.join(work, "out-%s" % sd)
+        p = subprocess.run([sys.executable, os.path.join(root, "embossc"), "--color-output", "never", "--output-path", out,
+                            "t.emb"], env=env, cwd=work, stdout=subprocess.PIPE, stderr=subprocess.PIPE, timeout=3000)
+        hp = os.path.join(out, "t.emb.h")
+        return {"rc": p.returncode, "stdout": p.stdout.decode(errors="replace"), "stderr": p.stderr.decode(errors="replace"),
+                "header": open(hp).read() if os.path.exists(hp) else None}
+    first = go(seeds[0])                       # also fills the byte-code cache for the copy
+    res = [first] + pool_map(go, seeds[1:])
+    took = "Cached parser does not match" in first["stderr"]
+    info = {"seeds": list(seeds), "warning_shown": took, "rc": first["rc"],
+                                 "new_productions_listed": first["stderr"].count("New production"),
+            "missing_productions_listed": first["stderr"].count("Missing production"),
+                                 "stderr_lines": first["stderr"].count("\n")}
+    for ob in ("rc", "stdout", "stderr", "header"):
+        if len(set(json.dumps(x[ob]) for x in res)) > 1:
+            other = [x for x in res if x[ob] != first[ob]][0]
+            return info, {
+                "input": {"files": files, "main": "t.emb", "set": "stale-cached-parser",
+                          "compiler_edit": {"compiler/front_end/module_ir.py": "inserted before the call `_finalize_grammar()`:" + add,
+                                            "compiler/front_end/generated/cached_parser.py":
+                                                "first `productions=prods,` -> `productions=prods | {%s},`" % gone}},
+                "observable": "embossc " + ob, "seeds": list(seeds),
+                "by_seed": {str(sd): (x[ob] or "")[:3000] if isinstance(x[ob], str) else x[ob] for sd, x in zip(seeds, res)},
+                "first_difference": first_difference(first[ob], other[ob]) if isinstance(first[ob], str) else None,
+                "expected": "byte-identical across PYTHONHASHSEED values (compiler whose cached parser is stale)",
+                "where": "stale cached parser"}
+    return info, None
+
+
+def stale_parser_check(chk, seeds):
+    info, bad = stale_parser_run(seeds)
+    chk.extra["stale_parser"] = info
+    chk.count(len(seeds))
+    if isinstance(info, dict) and info.get("warning_shown"):
+        chk.nontrivial("stale-cached-parser")
+    if bad:
+        chk.violation("input", bad, key="hashseed:stale-cached-parser")
+        return 1
+    return 0
+
+
+def site_targets(keys):
+    """(file suffix, innermost function name) of each site key, for the worker's call trace."""
+    out = []
+    for k in keys:
+        f, fn = k.split(":")[:2]
+        t = [f, fn.split(".")[-1]]
+        if t not in out:
+            out.append(t)
+    return out
+
+
 def search(chk):
-    """Lean obligations broken (typically: a new unmatched iteration site).  Model-free:
-    wider hash-seed sweep over the corpus, the repo's testdata and the malformed stream,
-    plus embossc on the pinned inputs."""
+    """Lean obligations broken (typically: a new unmatched iteration site).  Model-free.
+    (1) AIMED: every unmatched site names a file:function; harness/corr/c17_gen.AIM maps it to the
+        generator features whose collections that function consumes.  Large source sets of those
+        features are generated, one traced worker (sys.setprofile) tells which of them really CALL
+        the function, and those are swept over the hash seeds first (texts kept, so the record
+        shows the first differing line).  Sites on the parser-generation path are aimed at with a
+        compiler whose cached parser is stale.
+    (2) BROAD (if (1) found nothing): the former search — corpus, testdata, generated and
+        malformed sets over the seeds, then embossc on the pinned inputs."""
     r = common.rng("C17-search")
-    corpus, td, gen = all_sets(chk.tier, r)
     run_worker(0, {"sets": []})          # warm the byte-code cache
     seeds = list(range(8)) if chk.tier == "quick" else list(range(24))
+    sites, _stale = itersites.analyse()
+    unmatched = [s["key"] for s in sites if s["pattern"] == "unmatched"]
+    found = 0
+    if unmatched:
+        feats = []
+        for k in unmatched:
+            for f in c17_gen.features_for_site(k):
+                if f not in feats:
+                    feats.append(f)
+        targets = site_targets(unmatched)
+        aim = {"unmatched_sites": unmatched, "features": feats, "targets": targets}
+        chk.extra["search_aim"] = aim
+        gen_feats = [f for f in feats if f in c17_gen.GEN]
+        if feats[:1] == ["stale-parser"]:       # the site is on the parser-generation path: that scenario first
+            found = stale_parser_check(chk, seeds[:4])
+        if gen_feats and not found:
+            rounds = max(1, (6 if chk.tier == "quick" else 30) // len(gen_feats))
+            aimed = c17_gen.rich_sets(r, gen_feats, rounds=rounds, size=(8, 20) if chk.tier == "quick" else (10, 30),
+                                      prefix="aim")
+            live = [t for t in targets if t[1] != "<module>"]
+            if live:
+                tr = run_worker(0, {"sets": [dict(name=s["name"], files=s["files"], main=s["main"]) for s in aimed],
+                                    "trace": live})
+                reach = [any(rec.get("reached") or []) for rec in tr["records"]]
+            else:
+                reach = [True] * len(aimed)
+            aim["aimed_sets"] = len(aimed)
+            aim["aimed_sets_calling_the_function"] = sum(reach)
+            hot = [s for s, h in zip(aimed, reach) if h]
+            cold = [s for s, h in zip(aimed, reach) if not h]
+            # a collection of k >= 3 strings keeps one order over s seeds with probability ~(1/k!)^(s-1):
+            # four seeds (one wave of workers) first, the other seeds only if nothing showed
+            for sds in (seeds[:4], seeds[4:]):
+                if hot and not found:
+                    found = sweep(chk, hot, sds, "search aimed at " + ", ".join(":".join(t) for t in targets)[:300], full=True)
+            if not found and cold:
+                found = sweep(chk, cold[:24], seeds[:4], "search (aimed features, function not called)", full=True)
+        if not found and "stale-parser" in feats[1:]:
+            found = stale_parser_check(chk, seeds[:4])
+    if found:
+        return found
+    corpus, td, gen = all_sets(chk.tier, r)
     found = sweep(chk, corpus + td + gen, seeds, "search")
     if not found:
         before = len(chk.violations)
@@ -716,8 +884,10 @@ def run(tier):
     lap("sweep")
     cli_sets = [s for s in corpus if s["name"] in (
         "F6-expected-token-order", "F7-cycle-group-order", "anon-imports", "import-missing", "cpp-enum-case-bad")]
+    # one large generated set per accepted-feature through the real CLI as well
+    cli_sets += [s for s in gen if s["name"] in ("rich:imports:0.0",)]
     if tier == "thorough":
-        cli_sets = corpus + td[:6]
+        cli_sets = corpus + td[:6] + [s for s in gen if s["name"].startswith("rich:") and s["name"].endswith(":0.0")]
     cli_seeds = [0, 1, 2] if tier == "quick" else list(range(6))
     cli_res = cli_sweep(chk, cli_sets, cli_seeds)
     lap("cli_sweep")
@@ -732,6 +902,9 @@ def run(tier):
     lap("scenarios")
     small_models_check(chk, r, model_ok)
     lap("small_models")
+    if tier == "thorough":
+        stale_parser_check(chk, [0, 1, 2])
+        lap("stale_parser")
     finish_generator_purity(chk, gen_futs)
     lap("generator_wait")
     return chk.finish()
@@ -759,6 +932,14 @@ def replay(path):
         print("second compilation in the same process identical to the first:", same)
         print("after history (anon-12 first) vs fresh process:", why or "equal up to an injective renaming")
         return 0 if same and not why else 1
+    if isinstance(inp, dict) and inp.get("set") == "stale-cached-parser":
+        info, bad = stale_parser_run(rec.get("seeds") or [0, 1, 2, 3])
+        print("compiler with a stale cached parser (scratch copy of %s, edits as recorded), embossc t.emb under seeds %s: %s" % (
+            common.REPO, rec.get("seeds"), json.dumps(info)))
+        if bad:
+            print("differs in %s: %s" % (bad["observable"], json.dumps(bad["first_difference"])[:800]))
+        print("identical across seeds:", bad is None)
+        return 1 if bad else 0
     if not isinstance(inp, dict) or "files" not in inp:
         print("nothing to re-execute for this record kind:", rec.get("kind"), json.dumps(inp)[:400])
         return 0
